@@ -65,6 +65,24 @@ def Diagram.tensor (a b : Diagram) : Except Err Diagram :=
     | .ok ls2 =>
       .ok ⟨dom, cod, a.boxes ++ b.boxes, a.offsets ++ b.offsets.map (· + (a.cod.length : Int)), ls2⟩
 
+/-- `self.then(*others)`, cat.py:307-310 (to which monoidal.py:384-385 delegates whenever the number
+    of arguments is not one): no argument returns `self`; otherwise `self.then(others[0])` — the
+    binary composition with its `cod == dom` check, also when `self` has no boxes — and then the
+    rest.  The arguments have all been evaluated before the first junction is looked at. -/
+def Diagram.thenN : Diagram → List Diagram → Except Err Diagram
+  | a, [] => .ok a
+  | a, b :: bs => match a.then b with
+    | .error e => .error e
+    | .ok x => x.thenN bs
+
+/-- `self.tensor(other, *rest)`, monoidal.py:419-422: `self.tensor(other).tensor(*rest)`;
+    `self.tensor()` is `self`. -/
+def Diagram.tensorN : Diagram → List Diagram → Except Err Diagram
+  | a, [] => .ok a
+  | a, b :: bs => match a.tensor b with
+    | .error e => .error e
+    | .ok x => x.tensorN bs
+
 /-- Rebuild the public fields from a layer arrow, monoidal.py:465-469. -/
 def Diagram.ofLayers (ls : LArrow) : Diagram :=
   ⟨ls.dom, ls.cod, ls.boxes.map (·.box), ls.boxes.map (fun l => (l.left.length : Int)), ls⟩
